@@ -19,10 +19,11 @@ Record mon := mkMon {
   m_cut : list nat;                       (* requests cancelled by a drain at/after its deadline *)
   m_cut_early : list nat;                 (* requests cancelled by a drain BEFORE its deadline *)
   m_dl_hit : list nat;                    (* goroutines whose drain reported the deadline *)
+  m_cmd_dt : list (nat * N);              (* commands in progress -> the drain timeout they were given *)
   m_fail : list (nat * N * nat * bool)    (* event index, code, request, known finding? *)
 }.
 
-Definition mon0 : mon := mkMon [] [] [] [] [] [] [] [] [].
+Definition mon0 : mon := mkMon [] [] [] [] [] [] [] [] [] [].
 
 Definition gid (a : actor) : nat := match a with AGo g => g | ACmd c => c | AReq r => r | AEnv => 0 end.
 
@@ -35,35 +36,44 @@ Definition code_of (status : N) : N :=
 Definition mon_step (m : mon) (i : nat) (e : event) : mon :=
   match e_k e with
   | KRouted r _ => mkMon (nset (m_routed m) r i) (m_refused m) (m_drain_begin m) (m_drain_dl m) (m_snap m)
-                         (m_cut m) (m_cut_early m) (m_dl_hit m) (m_fail m)
+                         (m_cut m) (m_cut_early m) (m_dl_hit m) (m_cmd_dt m) (m_fail m)
   | KClaimRefused t r => mkMon (m_routed m) (nset (m_refused m) r (t, i)) (m_drain_begin m) (m_drain_dl m) (m_snap m)
-                               (m_cut m) (m_cut_early m) (m_dl_hit m) (m_fail m)
+                               (m_cut m) (m_cut_early m) (m_dl_hit m) (m_cmd_dt m) (m_fail m)
+  | KParams c _ dt _ => mkMon (m_routed m) (m_refused m) (m_drain_begin m) (m_drain_dl m) (m_snap m) (m_cut m) (m_cut_early m)
+                             (m_dl_hit m) (nset (m_cmd_dt m) c dt) (m_fail m)
+  | KReturn c _ => mkMon (m_routed m) (m_refused m) (m_drain_begin m) (m_drain_dl m) (m_snap m) (m_cut m) (m_cut_early m)
+                         (m_dl_hit m) (filter (fun p => negb (Nat.eqb (fst p) c)) (m_cmd_dt m)) (m_fail m)
   | KDrainBegin t orig timeout =>
+    (* the grace period is the drain timeout a command in progress was GIVEN (the smallest one if several are
+       in progress), not whatever the Drain call was passed *)
+    let granted := match map snd (m_cmd_dt m) with
+                   | [] => timeout
+                   | d :: ds => fold_left N.min ds d end in
     match orig with
     | TDraining => m
     | _ => mkMon (m_routed m) (m_refused m) (nset (m_drain_begin m) t i)
-                 (nset (m_drain_dl m) (gid (e_by e)) (e_t e + timeout)) (nset (m_snap m) (gid (e_by e)) [])
-                 (m_cut m) (m_cut_early m) (nremove (gid (e_by e)) (m_dl_hit m)) (m_fail m)
+                 (nset (m_drain_dl m) (gid (e_by e)) (e_t e + granted)) (nset (m_snap m) (gid (e_by e)) [])
+                 (m_cut m) (m_cut_early m) (nremove (gid (e_by e)) (m_dl_hit m)) (m_cmd_dt m) (m_fail m)
     end
   | KDrainSnapshot _ rs => mkMon (m_routed m) (m_refused m) (m_drain_begin m) (m_drain_dl m)
                                  (nset (m_snap m) (gid (e_by e)) (map fst rs))
-                                 (m_cut m) (m_cut_early m) (m_dl_hit m) (m_fail m)
+                                 (m_cut m) (m_cut_early m) (m_dl_hit m) (m_cmd_dt m) (m_fail m)
   | KDrainDeadline _ => mkMon (m_routed m) (m_refused m) (m_drain_begin m) (m_drain_dl m) (m_snap m)
-                              (m_cut m) (m_cut_early m) (gid (e_by e) :: m_dl_hit m) (m_fail m)
+                              (m_cut m) (m_cut_early m) (gid (e_by e) :: m_dl_hit m) (m_cmd_dt m) (m_fail m)
   | KDrainCancelRest _ =>
     let g := gid (e_by e) in
     let sn := match nget (m_snap m) g with Some l => l | None => [] end in
     let late := nmem g (m_dl_hit m) &&
                 match nget (m_drain_dl m) g with Some d => d <=? e_t e | None => false end in
     if late then mkMon (m_routed m) (m_refused m) (m_drain_begin m) (m_drain_dl m) (m_snap m)
-                       (sn ++ m_cut m) (m_cut_early m) (m_dl_hit m) (m_fail m)
+                       (sn ++ m_cut m) (m_cut_early m) (m_dl_hit m) (m_cmd_dt m) (m_fail m)
     else mkMon (m_routed m) (m_refused m) (m_drain_begin m) (m_drain_dl m) (m_snap m)
-               (m_cut m) (sn ++ m_cut_early m) (m_dl_hit m) (m_fail m)
+               (m_cut m) (sn ++ m_cut_early m) (m_dl_hit m) (m_cmd_dt m) (m_fail m)
   | KTargetFailed _ r why =>
     (* cancelled by a drain although no drain had reached its deadline with r in its snapshot *)
     if (why =? 1) && negb (nmem r (m_cut m)) then
       mkMon (m_routed m) (m_refused m) (m_drain_begin m) (m_drain_dl m) (m_snap m) (m_cut m) (m_cut_early m)
-            (m_dl_hit m) ((i, 7, r, false) :: m_fail m)
+            (m_dl_hit m) (m_cmd_dt m) ((i, 7, r, false) :: m_fail m)
     else m
   | KRespond r status sb =>
     let ok := ((status =? 200) && negb (Nat.eqb (length sb) 0)) || ((status =? 504) && nmem r (m_cut m)) in
@@ -81,7 +91,7 @@ Definition mon_step (m : mon) (i : nat) (e : event) : mon :=
       | _, _ => false
       end in
     mkMon (m_routed m) (m_refused m) (m_drain_begin m) (m_drain_dl m) (m_snap m) (m_cut m) (m_cut_early m)
-          (m_dl_hit m) ((i, code, r, known) :: m_fail m)
+          (m_dl_hit m) (m_cmd_dt m) ((i, code, r, known) :: m_fail m)
   | _ => m
   end.
 
